@@ -9,7 +9,7 @@ git -C /repo worktree add --detach "$W" HEAD -q || exit 2
 if ! git -C "$W" apply "$P"; then echo "PATCH DOES NOT APPLY: $P"; git -C /repo worktree remove --force "$W"; exit 2; fi
 if ! (cd "$W" && GOFLAGS=-mod=mod GOPROXY=off go build ./... ) >/dev/null 2>&1; then echo "MUTANT DOES NOT COMPILE: $P"; git -C /repo worktree remove --force "$W"; exit 2; fi
 for id in "$@"; do
-  out=$(cd /verif && VERIF_REPO="$W" bin/check "$id" 2>/dev/null); rc=$?
+  out=$(cd "$(dirname "$0")/.." && VERIF_REPO="$W" bin/check "$id" 2>/dev/null); rc=$?
   echo "$(basename $P) $id rc=$rc $(echo "$out" | grep -c '^VIOLATION') violation-lines $(echo "$out" | grep 'detail' | head -2 | sed 's/.*formula \([A-Za-z0-9_]*\).*/\1/' | tr '\n' ' ')"
 done
 git -C /repo worktree remove --force "$W"
